@@ -127,7 +127,56 @@ def sandbox(d, props):
     return res
 
 
+def meta_all(root="/verif/seeded"):
+    """Write meta.json in every seeded/<id>/ and seeded/README.md (which checks catch which change)."""
+    import re
+    rows = []
+    for d in sorted(os.listdir(root)):
+        dd = os.path.join(root, d)
+        if not os.path.isdir(dd) or not os.path.exists(os.path.join(dd, "patch.diff")):
+            continue
+        patch = open(os.path.join(dd, "patch.diff")).read()
+        files = re.findall(r"^diff --git a/(\S+)", patch, re.M)
+        notes = open(os.path.join(dd, "notes.md")).read() if os.path.exists(os.path.join(dd, "notes.md")) else ""
+        title = notes.splitlines()[0].lstrip("# ").strip() if notes else d
+        needs = ""
+        for line in notes.splitlines():
+            if re.search(r"need|manifest|trigger", line, re.I):
+                needs = line.strip("- ").strip()
+                break
+        ver = json.load(open(os.path.join(dd, "verify.json"))) if os.path.exists(os.path.join(dd, "verify.json")) else {}
+        det = {}
+        for fn in ("sandbox.json", "detect.json"):          # detect.json (run against /repo itself) wins
+            if os.path.exists(os.path.join(dd, fn)):
+                for k, v in json.load(open(os.path.join(dd, fn))).items():
+                    det[k] = {"alarm": v["rc"] != 0 and v["violations"] > 0, "violation_lines": v["violations"], "with_concrete_input": v["concrete"],
+                              "source": fn}
+        meta = {"id": d, "property_broken": d.split("-")[0], "title": title, "files_changed": files,
+                "needs_to_manifest": needs, "author": "independent sub-agent given only the property text and a scratch worktree (seeded/PROMPT.txt)",
+                "confirmed": {"how": "tools/seeded.py verify (scratch worktree of /repo HEAD): patch applies, pinned suite passes with it, "
+                                     "demo.py exits 0 without it and non-zero with it",
+                              "patch_applies": ver.get("apply_rc") == 0, "suite_passes_with_patch": ver.get("suite_rc") == 0,
+                              "demo_passes_on_pristine": ver.get("demo_pristine_rc") == 0, "demo_fails_with_patch": ver.get("demo_patched_rc", 0) != 0,
+                              "confirmed": ver.get("confirmed")},
+                "checks_run_against_it": det}
+        json.dump(meta, open(os.path.join(dd, "meta.json"), "w"), indent=1)
+        rows.append(meta)
+    lines = ["# Seeded breaking changes", "",
+             "Each directory holds `patch.diff` (never committed to /repo), the author's `demo.py` and `notes.md`, `verify.json` (my confirmation),",
+             "`detect.json` / `sandbox.json` (my checks run against it) and `meta.json`.  Authors were fresh sub-agents that saw only the property",
+             "text and a scratch worktree (`PROMPT.txt` is the template).  `tools/seeded.py verify|detect|sandbox|meta` reproduces everything.", "",
+             "| change | what it does | confirmed | caught by (violation lines / with a concrete failing input) | not caught by |", "|---|---|---|---|---|"]
+    for m in rows:
+        caught = ", ".join(f"{k} ({v['violation_lines']}/{v['with_concrete_input']})" for k, v in sorted(m["checks_run_against_it"].items()) if v["alarm"])
+        missed = ", ".join(k for k, v in sorted(m["checks_run_against_it"].items()) if not v["alarm"])
+        lines.append(f"| {m['id']} | {m['title'][:110]} | {'yes' if m['confirmed']['confirmed'] else 'NO'} | {caught or '-'} | {missed or '-'} |")
+    open(os.path.join(root, "README.md"), "w").write("\n".join(lines) + "\n")
+    print(f"{len(rows)} changes; README.md written")
+
+
 if __name__ == "__main__":
+    if sys.argv[1] == "meta":
+        meta_all()
     if sys.argv[1] == "sandbox":
         sandbox(sys.argv[2], sys.argv[3:])
     if sys.argv[1] == "verify":
